@@ -50,4 +50,25 @@ def judge (tr : Transport) (rt : ReqType) (noResp : Option Nat) (code : Nat) (ob
     | [s] => s.code == c && s.token && (!(tr == .udp && rt == .con) || (s.typ == "ack" && s.mid == "req"))
     | _ => false
 
+/-- A handler that calls `SetResponse` several times: every call is refused exactly when its class is suppressed, and the wire
+    carries the response of the LAST call that was not refused ("a response of a class that was not suppressed is never
+    dropped" — in particular not by a later call that is refused); if every call was refused, what a suppressed response
+    leaves (nothing, or the bare ACK of a confirmable datagram request). -/
+def expectedCalls (tr : Transport) (rt : ReqType) (noResp : Option Nat) (cs : List Nat) : List Bool × Wire :=
+  (cs.map (fun c => !supOf noResp c),
+   match (cs.filter (fun c => !supOf noResp c)).getLast? with
+   | some c => .response c
+   | none => if tr = .udp ∧ rt = .con then .bareAck else .nothing)
+
+def judgeCalls (tr : Transport) (rt : ReqType) (noResp : Option Nat) (cs : List Nat) (obs : List Bool × List Sent) : Bool :=
+  let (expAcc, w) := expectedCalls tr rt noResp cs
+  obs.1 == expAcc &&
+  match w with
+  | .nothing => obs.2.isEmpty
+  | .bareAck => obs.2 == [⟨"ack", 0, "req", false⟩]
+  | .response c =>
+    match obs.2 with
+    | [s] => s.code == c && s.token && (!(tr == .udp && rt == .con) || (s.typ == "ack" && s.mid == "req"))
+    | _ => false
+
 end CoapVerif.Spec.NoResponse
